@@ -25,6 +25,9 @@ ASSUMPTIONS = [
 ]
 
 WITNESSES = [
+    ['V0:5', 'e0:6', 'X0'],                                # emplace whose constructor throws: the old value is destroyed once, the variable reads disengaged
+    ['V0:5', 'F1:0', 'G1:0', 'D1', 'f1:0', 'g1:0', 'X1', 'X0'],   # throwing constructions / assignments leave the source engaged with its value
+    ['V0:5', 'V1:6', 'e1:7', 'm1:0', 'e0:8', 'X0', 'X1'],
     ['D0', 'E0:7', 'M1:0', 'X0', 'X1'],                    # regression: former witness of the repaired leak (now 2 constructed, 2 destroyed)
     ['V0:5', 'D1', 'm1:0', 'X0', 'X1'],                    # move assignment
     ['D0', 'E0:7', 'M1:0', 'E0:8', 'X0', 'X1'],            # re-use of the moved-from OpResult
@@ -37,6 +40,7 @@ class Sim:
 
     def __init__(self):
         self.v = [None] * NV      # None = no object, 'n' = disengaged, int = engaged
+        self.mv = [False] * NV    # reads disengaged only because it was moved from: std::optional still holds a (moved-from) value there
 
     def options(self, allow_engaged_move, tagsrc):
         out = []
@@ -48,8 +52,14 @@ class Sim:
                         out.append(('C', i, j))
                         if allow_engaged_move or self.v[j] == 'n':
                             out.append(('M', i, j))
+                        if self.v[j] != 'n':          # the payload constructor throws: nothing is constructed, the source keeps its value
+                            out += [('F', i, j), ('G', i, j)]
             else:
-                out += [('E', i, tagsrc()), ('X', i, None)]
+                out += [('E', i, tagsrc()), ('X', i, None), ('e', i, tagsrc())]
+                if self.v[i] == 'n' and not self.mv[i]:      # disengaged in std::optional too, so that its assignment constructs as well
+                    for j in range(NV):
+                        if j != i and self.v[j] not in (None, 'n'):
+                            out += [('f', i, j), ('g', i, j)]
                 if self.v[i] != 'n':
                     out.append(('P', i, tagsrc()))
                 for j in range(NV):
@@ -61,6 +71,14 @@ class Sim:
 
     def apply(self, o):
         k, i, a = o
+        if k in 'CcMm':
+            if i != a:
+                src_mv = self.v[a] == 'n' and self.mv[a]
+                if k in 'Mm' and self.v[a] != 'n':
+                    self.mv[a] = True
+                self.mv[i] = src_mv
+        elif k in 'DVWEPXe':
+            self.mv[i] = False
         if k == 'D':
             self.v[i] = 'n'
         elif k in 'VWEP':
@@ -73,6 +91,9 @@ class Sim:
                 self.v[a] = 'n'
         elif k == 'X':
             self.v[i] = None
+        elif k == 'e':          # throwing emplace: the old value is gone, the variable is disengaged
+            self.v[i] = 'n'
+        # F G f g: the constructor threw before anything changed
 
     def closing(self):
         return [('X', i, None) for i in range(NV) if self.v[i] is not None]
@@ -106,7 +127,7 @@ def gen_cases(ctx, n):
             return
         nxt = [10 * (len(sim_ops) + 1)]
         for o in sim.options(True, lambda: nxt[0]):
-            if o[1] >= 2 or (o[0] in 'CMcm' and o[2] >= 2):
+            if o[1] >= 2 or (o[0] in 'CMcmFGfg' and o[2] >= 2):
                 continue
             if o[0] == 'W' and len(sim_ops) > 0:      # lvalue construction differs from V only in the counters: keep the tree small
                 continue
@@ -116,6 +137,7 @@ def gen_cases(ctx, n):
     while len(cases) < base + n:
         sim = Sim()
         allow = r.random() < 0.5
+        faults = r.random() < 0.5      # half of the random programs contain throwing payload constructors
         tag = [0]
 
         def tagsrc():
@@ -127,6 +149,8 @@ def gen_cases(ctx, n):
             opts = sim.options(allow, tagsrc)
             # bias towards the interesting operations (copies, moves, assignments on engaged values)
             w = [3 if o[0] in 'CMcm' else 2 if o[0] in 'VWE' else 1 for o in opts]
+            if not faults:
+                w = [0 if o[0] in 'FGfge' else x for o, x in zip(opts, w)]
             o = r.choices(opts, w)[0]
             ops.append(o)
             sim.apply(o)
@@ -170,12 +194,25 @@ def coq_case(ops, line):
     ro, rn, rflag = parse_side(left)
     oo, on, _ = parse_side(right)
     fops, fimpl, fopt = [], [], []
-    for k, i, a in ops:
-        fops += [OPCODE[k], i, 0 if a is None else a]
-    for vs, q in ro:
+    if len(ro) != len(ops) or len(oo) != len(ops):
+        return None
+    # throwing payload constructors, expressed in the model's own operations (Props/Properties_C40.v, C40_faults_*): a construction /
+    # assignment-to-disengaged whose constructor throws changes nothing (model: the no-op self copy-assignment of the source, which only
+    # carries the observation); a throwing emplace is ~OpResult followed by OpResult() (old value destroyed, disengaged)
+    for (k, i, a), (vs, q), (ovs, _) in zip(ops, ro, oo):
+        if k in 'FGfg':
+            fops += [OPCODE['c'], a, a]
+        elif k == 'e':
+            fops += [OPCODE['X'], i, 0, OPCODE['D'], i, 0]
+            mid, omid = list(vs), list(ovs)
+            mid[i] = 'x'
+            omid[i] = 'x'
+            fimpl += [enc_var(v) for v in mid] + [q[0], q[3]]
+            fopt += [enc_var(v) for v in omid]
+        else:
+            fops += [OPCODE[k], i, 0 if a is None else a]
         fimpl += [enc_var(v) for v in vs] + [q[0], q[3]]
-    for vs, _ in oo:
-        fopt += [enc_var(v) for v in vs]
+        fopt += [enc_var(v) for v in ovs]
     return '(%d, %s, %s, %s, %d, %s, %s)' % (NV, zl(fops), zl(fimpl), zl(rn[:14]), 1 if rflag else 0, zl(fopt), zl(on[:14]))
 
 
